@@ -208,6 +208,10 @@ def near_misses(name, registered):
         out.add(name[:i] + name[i + 1:])
     out.add(name + 'Response')
     out.add(name + name)
+    # bytes that are not UTF-8 (only a URL path can carry them; written as surrogate escapes here)
+    out.add(name + '\udcff')
+    out.add('\udcfe' + name)
+    out.add(name[:2] + '\udcc3' + name[2:])
     out.add('')
     out.add(' ' + name)
     return sorted(x for x in out if x not in registered)
@@ -228,6 +232,8 @@ def xml_name_ok(n):
 
 def build_request(channel, name, variant):
     """-> bytes / (path) ; variant in qualified | other-ns | unqualified"""
+    if channel != 'http' and any(0xDC80 <= ord(c) <= 0xDCFF for c in name):
+        return None
     if channel in ('xml', 'soap11', 'soap12'):
         if not xml_name_ok(name):
             return None
@@ -254,7 +260,7 @@ def build_request(channel, name, variant):
         return msgpack.packb([0, 1, name, []], use_bin_type=True)
     if channel == 'http':
         # PEP 3333: PATH_INFO is the unquoted path, its bytes decoded as latin-1
-        return '/' + name.encode('utf8').decode('latin-1')
+        return '/' + name.encode('utf8', 'surrogateescape').decode('latin-1')
     raise ValueError(channel)
 
 
